@@ -301,8 +301,9 @@ def parseSymm (params : List Tok) : List Tok := splitComma params.flatten []
 /-- `SYMM._as_str`: `"SYMM  " + ", ".join(symmcard)` -/
 def renderSymm (comps : List Tok) : List Char := "SYMM  ".toList ++ joinWith [',', ' '] comps
 
-/-- reader: the operator of a SYMM line = text after the keyword without blanks, split at commas -/
-def normSymm (line : List Char) : List Tok := splitComma ((splitWs line).tail.flatten) []
+/-- reader: the operator of a SYMM line = the text after the four-letter keyword with the blanks removed, split at
+    the commas -/
+def normSymm (line : List Char) : List Tok := splitComma ((line.drop 4).filter (· ≠ ' ')) []
 
 /-- two parameter lists denote the same instruction: they agree once the omitted trailing parameters are filled in
     with the SHELXL defaults -/
